@@ -25,7 +25,7 @@ BUILD = os.path.join(VERIF, "build")
 SPEC = os.path.join(VERIF, "spec")
 HARNESS = os.path.join(VERIF, "harness")
 TLA_CP = "/opt/veriftools/tla/tla2tools.jar:/opt/veriftools/tla/CommunityModules-deps.jar"
-NCPU = 16
+NCPU = int(os.environ.get("VERIF_JOBS", "16"))
 
 
 class ToolFailure(Exception):
